@@ -26,11 +26,15 @@ LEVEL = "exploration"
 DEFAULT_LEG = "history"
 
 RULE = ("each run draws a machine kind and object set (1-2 orbits of halo/Lyapunov/vertical families sharing or not sharing a libration "
-        "point, or a libration point with 1-2 centre manifolds, or a centre-manifold map, or an orbit with a manifold) and then a history "
+        "point, or 1-2 libration points (of one or two systems) with 1-2 centre manifolds and their maps, or an orbit with one or two of its "
+        "manifolds, or an orbit with an invariant torus) and then a history "
         "of 1-14 public operations (mutators, observers, save/load, failing operations, save under an injected I/O fault), each drawn from "
         "a small fully-specified alphabet so that memo keys collide often; after every operation the long-lived object's return value and "
         "read-back logical state are compared with a fresh twin built at the model state on a never-mutated System. The quick tier also "
-        "enumerates exhaustively all histories of length <= 3 over a reduced alphabet per machine. A run is non-trivial iff it contains a "
+        "enumerates exhaustively all histories of length <= 2 over a reduced alphabet per machine plus length-3 core alphabets and a few explicit "
+        "compute/mutate/re-read patterns (thorough tier: length <= 3). Operations include the correction / continuation option and configuration "
+        "setters, generate, another orbit's file loaded in place, system.propagate (also against an independent scipy integration), point and "
+        "system observers, conversions at neighbouring inputs. A run is non-trivial iff it contains a "
         "re-read after a mutation (or after a failed operation / reload); distinct = distinct (object set, operation sequence) digests.")
 ASSUMPTIONS = [
     "a fresh twin shares one never-mutated System per mass ratio with other twins (a fresh System would recompile every integrator); the object under test never sees the twins' System",
